@@ -564,6 +564,58 @@ fn fills_keep_what_is_not_pixels(rng: &mut Rng, rep: &mut Report) {
     }
 }
 
+/// Pages over the caller's bytes whose pixel area is all one value, with EVERY page id 0..=255 in the header (an id that
+/// equals the fill byte, the header marker, a column byte ...), borrowed and owned: a fill makes every pixel read the
+/// value, a clear makes every pixel read dark, and the id stays what it was.
+pub fn uniform_pages_with_every_id(rep: &mut Report) {
+    for (w, h) in [(90u32, 7u32), (16, 16), (9, 9)] {
+        let cb = refs::col_bytes(h);
+        let l = (w as usize) * cb;
+        let len = refs::padded_len(w, h);
+        for id in 0..=255u8 {
+            for base in [0x00u8, 0xFF] {
+                for owned in [false, true] {
+                    let mut given = vec![0xFFu8; len];
+                    given[0] = id;
+                    given[1] = 0x10;
+                    given[2] = 0;
+                    given[3] = 0;
+                    for b in given[4..4 + l].iter_mut() {
+                        *b = base;
+                    }
+                    let sig = format!("uniform-id|{}x{}|{}|{:02X}|{}", w, h, id, base, owned);
+                    rep.case(Some(crate::util::fnv(sig.as_bytes())));
+                    let r = catch(std::panic::AssertUnwindSafe(|| -> Result<Option<String>, String> {
+                        for first in [false, true] {
+                            let mut p = if owned { Page::from_bytes(w, h, given.clone()) } else { Page::from_bytes(w, h, &given[..]) }.map_err(|e| e.to_string())?;
+                            for fill in [first, !first] {
+                                p.set_all_pixels(fill);
+                                for x in 0..w {
+                                    for y in 0..h {
+                                        if p.get_pixel(x, y) != fill {
+                                            return Ok(Some(format!("after set_all_pixels({}) (the first call was {}) pixel ({},{}) reads {}", fill, first, x, y, !fill)));
+                                        }
+                                    }
+                                }
+                                if p.id() != PageId(id) || p.as_bytes()[0] != id {
+                                    return Ok(Some(format!("after set_all_pixels({}) the id is {:?}", fill, p.id())));
+                                }
+                            }
+                        }
+                        Ok(None)
+                    }));
+                    match r {
+                        Ok(Ok(None)) => rep.count("uniform_pages_with_every_id"),
+                        Ok(Ok(Some(what))) => rep.violation(MON, "fill_of_a_uniform_page_goes_wrong", &sig, format!("{}x{} page id {} over {} bytes whose pixel area is all {:02X}: {}", w, h, id, if owned { "owned" } else { "borrowed" }, base, what), J::obj(vec![("workload", J::s("uniform pages with every id")), ("width", J::Int(i128::from(w))), ("height", J::Int(i128::from(h))), ("id", J::Int(i128::from(id))), ("base", J::Int(i128::from(base))), ("owned", J::Bool(owned)), ("observed", J::s(what.clone()))])),
+                        Ok(Err(e)) => rep.violation(MON, "well_formed_page_refused", &sig, format!("from_bytes refused a well-formed {}x{} page with id {}: {}", w, h, id, e), J::Null),
+                        Err(p) => rep.violation(MON, "panic", &sig, format!("{}x{} page id {}: panic {} at {}", w, h, id, p.msg, short_loc(&p.loc)), J::Null),
+                    }
+                }
+            }
+        }
+    }
+}
+
 /// Pages over the caller's bytes whose pixel area is ALL ONE VALUE BUT FOR ONE BYTE (at every position in turn), then
 /// filled with that value, and with the other: afterwards every byte of the pixel area holds the fill — a shortcut that
 /// looks at some of the bytes and concludes there is nothing to do is wrong exactly here.
@@ -741,6 +793,7 @@ pub fn run(ctx: &Ctx) -> Outcome {
         same_coordinate_on_two_pages(&mut at_exit);
         fills_keep_what_is_not_pixels(&mut ctx.rng("fills", 0), &mut at_exit);
         nearly_uniform_pages(&mut at_exit);
+        uniform_pages_with_every_id(&mut at_exit);
         large_pages_around_a_chunk_boundary(&mut at_exit);
         crate::exitprobe::check_migration("page", MON, &mut at_exit);
         report.merge(at_exit);
@@ -749,6 +802,7 @@ pub fn run(ctx: &Ctx) -> Outcome {
         floor("new pages of 8 different sizes (1 byte .. 1 MiB) built at the same instant on 8 threads, every one checked", report.get("pages_built_while_other_threads_built_other_sizes") >= 8 * 96, report.get("pages_built_while_other_threads_built_other_sizes")),
         floor("the same coordinate set on two pages of different strides one right after the other (42 ordered pairs, every common pixel)", report.get("page_pairs_accessed_at_the_same_coordinates") == 42, report.get("page_pairs_accessed_at_the_same_coordinates")),
         floor("pages over the caller's bytes (arbitrary header and padding, borrowed and owned) filled, cleared and drawn on: nothing outside the pixel area changes", report.get("pages_over_the_callers_bytes_filled_and_drawn_on") == 120, report.get("pages_over_the_callers_bytes_filled_and_drawn_on")),
+        floor("pages over bytes whose pixel area is all one value, with every id 0..=255 (3 sizes, borrowed and owned), filled and cleared in both orders", report.get("uniform_pages_with_every_id") == 3 * 256 * 4, report.get("uniform_pages_with_every_id")),
         floor("pages that are all one value but for one pixel (in every byte of the pixel area in turn), then filled", report.get("nearly_uniform_pages_filled") > 1_500, report.get("nearly_uniform_pages_filled")),
         floor("new pages of 4 KiB and more whose data ends on, just before and just past a 16-byte boundary", report.get("large_new_pages_around_a_chunk_boundary") == 60, report.get("large_new_pages_around_a_chunk_boundary")),
         floor("every size of the box checked", report.get("box_sizes_done") == box_n as u64, report.get("box_sizes_done")),
